@@ -27,6 +27,12 @@ under several variable-name assignments until the shared node's free-variable se
 deepest variable last and with a shallower one last (counted in the evidence), so the verdict does not depend on
 string hashing.
 
+The same family covers local aggregation over an array: arr.aggregate(lambda e: body) (StreamAgg) and
+arr._to_stream()._aggregate_scan(lambda e: body).to_array() (StreamAggScan) used twice inside map / map-in-map /
+fold / let-in-map / if-in-map, for every aggregation body of 3-5 nodes that aggregates (hl.agg/scan.max, .filter)
+and mentions an enclosing binder's variable in its value context (and, in the raw-IR builds, inside the aggregated
+argument too; the API itself rejects lambda variables there, which is counted).
+
 Both tiers also cover the aggregation sub-grammar: queries of Table.aggregate and scans in
 Table.annotate over range_table(3) with hl.agg/scan.max and hl.agg/scan.filter, where sub-DAGs are
 shared between aggregated arguments, between an aggregated argument and the result context, etc.
@@ -309,6 +315,7 @@ def build(mode, term, agg=None, salt=0, want=None):
 MODES = ('api', 'direct', 'direct2')
 TWO_MODES = ('api', 'direct2')
 NEST_SALTS = (0, 1, 2, 3, 4, 5)
+QUICK_AGG5_SKELETONS = (0, 2, 6)
 
 
 # ---------------------------------------------------------------------------------------------------------------
@@ -540,7 +547,7 @@ def norm(v):
     return v
 
 
-def run_case(term, agg=None, modes=MODES, salts=(0,), shared=None, ranks=None, adaptive=False):
+def run_case(term, agg=None, modes=MODES, salts=(0,), shared=None, ranks=None, adaptive=False, api_may_reject=False):
     """-> (violations [(signature, message, mode, salt)], info dict).
     salts: each build is repeated with these variable-name assignments.  shared / ranks (nested-binder family): completion
     index of the shared node over variables of different binding depth and {binder id: depth rank}; the iteration order of that
@@ -554,12 +561,23 @@ def run_case(term, agg=None, modes=MODES, salts=(0,), shared=None, ranks=None, a
     for mode, salt in [(m, sl) for m in modes for sl in salts]:
         if shared is not None:
             seen = info['orders'].setdefault(mode, {})
-            if adaptive and salt != salts[0] and salt != salts[1] and len(seen) >= 2:
+            if adaptive and salt != salts[0] and salt != salts[1] and (len(seen) >= 2 or 'single-depth' in seen or 'rejected' in seen):
                 continue
-            root, node, names = build(mode, term, agg, salt, shared)
-            order = [names[v] for v in node.free_vars if v in names]
-            deepest = max(ranks[b] for b in order)
-            cls = 'deepest-variable-last' if ranks[order[-1]] == deepest else 'shallower-variable-last'
+            try:
+                root, node, names = build(mode, term, agg, salt, shared)
+            except Exception as e:  # noqa: BLE001
+                if mode == 'api' and api_may_reject and type(e).__name__ == 'ExpressionException':
+                    # e.g. "dynamic variables created by 'hl.bind' or lambda methods like 'hl.map' may not be aggregated"
+                    seen['rejected'] = seen.get('rejected', 0) + 1
+                    info['api_rejected'] = True
+                    continue
+                raise
+            order = [names[v] for v in node.free_vars if v in names and names[v] in ranks]
+            if len({ranks[b] for b in order}) < 2:
+                cls = 'single-depth'
+            else:
+                deepest = max(ranks[b] for b in order)
+                cls = 'deepest-variable-last' if ranks[order[-1]] == deepest else 'shallower-variable-last'
             seen[cls] = seen.get(cls, 0) + 1
         else:
             root = build(mode, term, agg, salt)
@@ -593,7 +611,7 @@ def run_case(term, agg=None, modes=MODES, salts=(0,), shared=None, ranks=None, a
                 out.append(('value-differs', f'rendered text evaluates to {got}, inlined IR to {tree} (valuation {vi})', mode, salt))
                 break
     if shared is not None:
-        info['both_orders'] = all(len(v) >= 2 for v in info['orders'].values())
+        info['both_orders'] = all(len(v) >= 2 or 'single-depth' in v or 'rejected' in v for v in info['orders'].values())
     return out, info
 
 
@@ -609,6 +627,11 @@ def _case_worker(job):
         sk = E.SKELETONS[shard]
         ops = ('add',) if optname == 'nest-add' else ('add', 'mul')
         gen_ = ((rt, term, sh_idx) for _, rt, term, sh_idx in E.nested_programs(size, shard, ops))
+    elif optname in ('nestagg', 'nestagg-add3', 'nestagg-all-salts'):
+        ops = ('add',) if optname == 'nestagg-add3' else ('add', 'mul')
+        # quick, 5-node bodies: only + and only agg-in-map, agg-in-map-in-map, aggscan-in-map
+        si = QUICK_AGG5_SKELETONS[shard] if optname == 'nestagg-add3' else shard
+        gen_ = ((rt, term, (k, ranks)) for _, rt, term, k, ranks, _e in E.nested_agg_programs(size, si, ops))
     else:
         opts = {'full': FULL, 'nolit': NO_LIT_SHARING, 'freelit': FREE_LITS, 'agg': dict(AGG_OPTS, agg=agg)}[optname]
         roots = ('i',) if agg else E.VALUE_TYPES
@@ -620,7 +643,14 @@ def _case_worker(job):
         if sh_idx is None:
             vs, info = run_case(term, agg, modes)
         else:
-            vs, info = run_case(term, agg, modes, NEST_SALTS, sh_idx, sk[4], adaptive=optname != 'nest-all-salts')
+            if isinstance(sh_idx, tuple):
+                sh_idx, rk = sh_idx
+                nest['local_agg_programs'] = nest.get('local_agg_programs', 0) + 1
+            else:
+                rk = sk[4]
+            vs, info = run_case(term, agg, modes, NEST_SALTS, sh_idx, rk, adaptive=not optname.endswith('-all-salts'),
+                                api_may_reject=optname.startswith('nestagg'))
+            nest['api_rejected_programs'] = nest.get('api_rejected_programs', 0) + bool(info.get('api_rejected'))
             nest['programs'] += 1
             nest['builds'] += info['builds']
             nest['programs_with_both_orders_in_every_build_mode'] += info['both_orders']
@@ -661,10 +691,13 @@ def plan(tier):
         p += [(5, 'agg', 'agg', 2), (5, 'agg', 'scan', 6), (6, 'agg', 'agg', 16), (6, 'agg', 'scan', 64)]
     # targeted family: nested binders, one shard per skeleton
     nsk = len(E.SKELETONS)
+    nag = len(E.AGG_SKELETONS)
     if tier == 'quick':
         p += [(4, 'nest', None, nsk), (5, 'nest-add', None, nsk)]
+        p += [(3, 'nestagg', None, nag), (4, 'nestagg', None, nag), (5, 'nestagg-add3', None, len(QUICK_AGG5_SKELETONS))]
     else:
         p += [(4, 'nest-all-salts', None, nsk), (5, 'nest-all-salts', None, nsk)]
+        p += [(3, 'nestagg-all-salts', None, nag), (4, 'nestagg-all-salts', None, nag), (5, 'nestagg-all-salts', None, nag)]
     return p
 
 
@@ -683,7 +716,7 @@ def check(tier, seed, procs):
     for size, g, agg, ns in plan(tier):
         # the biggest slices (thorough tier only) skip the 'direct' build, which differs from 'api' only where the API simplifies
         modes = TWO_MODES if (g, size) in (('full', 6), ('nolit', 7), ('freelit', 5)) or (g == 'agg' and size == 6) \
-            or g in ('nest', 'nest-add') else MODES
+            or g in ('nest', 'nest-add', 'nestagg', 'nestagg-add3') else MODES
         jobs += [(size, g, agg, k, ns, modes) for k in range(ns)]
     order = sorted(par.rotate(jobs, seed), key=lambda j: -j[0])   # big shards first for balance; set is unchanged
     rows = par.pmap(_case_worker, order, procs, chunksize=1)
@@ -738,6 +771,9 @@ def check(tier, seed, procs):
             'free_variable_iteration_orders_observed': {k: sum(r['nest']['orders'].get(k, 0) for r in rows)
                                                         for k in sorted({k for r in rows for k in r['nest']['orders']})},
             'programs_with_both_orders_in_every_build_mode': sum(r['nest']['programs_with_both_orders_in_every_build_mode'] for r in rows),
+            'local_aggregation_programs': sum(r['nest'].get('local_agg_programs', 0) for r in rows),
+            'local_aggregation_skeletons': [sk[0] for sk in E.AGG_SKELETONS],
+            'local_aggregation_programs_the_api_rejects': sum(r['nest'].get('api_rejected_programs', 0) for r in rows),
         },
         'violating_builds_per_signature': {k: sum(r['vcount'].get(k, 0) for r in rows)
                                            for k in sorted({k for r in rows for k in r['vcount']})},
